@@ -13,7 +13,7 @@ import numpy as np
 from pyvc.arr import SymArr, havoc_array
 from pyvc.contract import Contract, register
 from pyvc.core import and_, ctx, is_sym, ite, not_, or_
-from pyvc.spec import All, Exists, Forall
+from pyvc.spec import All, AnyOf, Exists, Forall
 
 MS = "verde.model_selection"
 
@@ -356,6 +356,139 @@ class KFoldWiring(Contract):
 
                 out["population_at_position_t_is_that_of_the_block_at_position_t_of_the_fold_order"] = and_(*[arr.at(t) == count_equal(labels, ids[t]) for t in range(G)])
         return out
+
+
+class SymShuffleSplitBlocks:
+    """sklearn.model_selection.ShuffleSplit(n_splits, test_size, train_size, random_state).split(X) on a sequence of
+    CONCRETE length: n_splits pairs of index arrays with the sizes scikit-learn prescribes (its own
+    _validate_shuffle_split, executed for real), pairwise distinct entries in range, train and test disjoint;
+    WHICH indices is unspecified (a function of the seed). Assumed."""
+
+    def __init__(self, n_splits=10, test_size=None, train_size=None, random_state=None):
+        self.n_splits, self.test_size, self.train_size, self.random_state = n_splits, test_size, train_size, random_state
+        ctx().used_prelude.add("sklearn ShuffleSplit.split: n_splits (train, test) pairs of the prescribed sizes, distinct indices, disjoint")
+
+    def split(self, X, y=None, groups=None):
+        from sklearn.model_selection._split import _validate_shuffle_split
+
+        from pyvc.arr import as_array, from_list
+        from pyvc.core import Unsupported, concrete_value
+
+        n = concrete_value(as_array(X).shape[0])
+        if n is None or is_sym(self.n_splits) or is_sym(self.test_size) or is_sym(self.train_size):
+            raise Unsupported("ShuffleSplit.split with symbolic sizes")
+        n = int(n)
+        n_train, n_test = _validate_shuffle_split(n, self.test_size, self.train_size, default_test_size=0.1)
+        c = ctx()
+        for k in range(int(self.n_splits)):
+            idx = [c.fresh("ss%d_%d" % (k, t), "int") for t in range(n_train + n_test)]
+            c.assume(and_(*[and_(v >= 0, v < n) for v in idx]))
+            c.assume(and_(*[idx[i] != idx[j] for i in range(len(idx)) for j in range(i + 1, len(idx))]) if len(idx) > 1 else True)
+            train, test = from_list(idx[:n_train], "i"), from_list(idx[n_train:], "i")
+            c.ghost.setdefault("shuffle_split", []).append((train, test))
+            yield train, test
+
+
+def shuffle_test_sets(cv, X):
+    """The test index sets of one BlockShuffleSplit.split(X), as the real generator yields them."""
+    return list(cv._iter_test_indices(X))
+
+
+@register
+class ShuffleSplitWiring(Contract):
+    """BlockShuffleSplit._iter_test_indices (REAL code), arbitrary samples and labels, exactly G occupied blocks: one
+    ShuffleSplit over the occupied blocks with n_splits * balancing candidates of the prescribed sizes; every yielded
+    test set is the set of ALL samples of the test blocks of one candidate of its own round (whole blocks, the
+    prescribed number of blocks), namely a candidate whose point balance |#train / #test - blocks ratio| is minimal
+    among the round's candidates."""
+
+    target = "contracts.cv_c11:shuffle_test_sets"
+    native_replay = False
+
+    def patch_modules(self, P):
+        import verde.model_selection as ms
+        from pyvc.contract import REGISTRY, default_patches, make_stub
+
+        default_patches(P, ms)
+        P.set(ms, "block_split", make_stub(REGISTRY["contracts.cv_c11:_block_split_labels"], "wiring"))
+        P.set(ms, "ShuffleSplit", SymShuffleSplitBlocks)
+
+    def configs(self, tier):
+        out = [{"G": 2, "n_splits": 1, "balancing": 1, "test": 1}, {"G": 3, "n_splits": 1, "balancing": 2, "test": 1}, {"G": 3, "n_splits": 2, "balancing": 2, "test": 2}]
+        if tier == "thorough":
+            out += [{"G": 4, "n_splits": 2, "balancing": 2, "test": 2}, {"G": 3, "n_splits": 1, "balancing": 3, "test": 1}]
+        return out
+
+    def setup(self, B, cfg):
+        import verde
+
+        ctx().ghost["group_count_hint"] = cfg["G"]
+        cv = verde.BlockShuffleSplit.__new__(verde.BlockShuffleSplit)
+        cv.spacing, cv.shape, cv.n_splits = B.real("spacing"), None, cfg["n_splits"]
+        cv.test_size, cv.train_size, cv.random_state, cv.balancing = cfg["test"], None, B.int("seed"), cfg["balancing"]
+        self._cfg = cfg
+        return (cv, B.array("X", (B.dim("n_samples", 1), 2))), {}
+
+    def requires(self, a):
+        return a.cv.spacing > 0
+
+    def ensures(self, a, r):
+        from pyvc.core import iff, implies, div
+        from pyvc.prelude_groupby import structure_of
+        from pyvc.prelude_index import SymIndexArr
+        from pyvc.sums import count_equal
+
+        c = ctx()
+        cfg = self._cfg
+        G, k, nb = cfg["G"], cfg["n_splits"], cfg["balancing"]
+        n = a.X.shape[0]
+        out = {"exactly_n_splits_test_sets": isinstance(r, list) and len(r) == k and all(isinstance(t, SymIndexArr) for t in r)}
+        calls = c.ghost.get("contracts.cv_c11:_block_split_labels", [])
+        cands = c.ghost.get("shuffle_split", [])
+        out["one_block_split_and_n_splits_times_balancing_candidates"] = len(calls) == 1 and len(cands) == k * nb
+        if not all(out.values()):
+            return out
+        _, (_, labels) = calls[0]
+        lab = labels.snapshot()
+        gs = structure_of(labels)
+        keys = [gs.key(g) for g in range(G)]
+        pops = [count_equal(labels, keys[g]) for g in range(G)]
+
+        def in_blocks(v, blocks):  # label value v is the id of one of the chosen block positions
+            m = int(blocks.shape[0])
+            return or_(*[and_(blocks.at(t) == g, v == keys[g]) for t in range(m) for g in range(G)])
+
+        def npoints(blocks):
+            tot = 0
+            for g in range(G):
+                tot = tot + ite(or_(*[blocks.at(t) == g for t in range(int(blocks.shape[0]))]), pops[g], 0)
+            return tot
+
+        def score(train, test):
+            return _absdiff(div(npoints(train), npoints(test)), div(int(train.shape[0]), int(test.shape[0])))
+
+        for j in range(k):
+            info = getattr(r[j].iset, "isin_of", None)
+            out["split%d_is_a_selection_of_samples_by_their_block_label" % j] = info is not None and info[0].storage is labels.storage
+            if not out["split%d_is_a_selection_of_samples_by_their_block_label" % j]:
+                continue
+            member_of = info[1]  # label value -> in the yielded set? (sample p is selected iff member_of(label[p]))
+            mine = cands[j * nb : (j + 1) * nb]
+            # every sample carries one of the G occupied labels, so "the yielded set is exactly the samples of the test blocks
+            # of candidate i" is a statement about the G label values (quantifier free); the yielded set must be that of SOME
+            # candidate of its own round whose point balance is minimal in that round
+            parts = []
+            for tr, te in mine:
+                same = and_(*[iff(member_of(keys[g]), in_blocks(keys[g], te)) for g in range(G)])
+                parts.append(and_(same, *[score(tr, te) <= score(tr2, te2) for tr2, te2 in mine]))
+            out["split%d_is_all_samples_of_the_test_blocks_of_a_best_point_balanced_candidate_of_its_round" % j] = or_(*parts)
+            out["split%d_candidates_test_the_prescribed_number_of_blocks" % j] = all(int(te.shape[0]) == cfg["test"] for _, te in mine)
+        return out
+
+
+def _absdiff(x, y):
+    d = x - y
+    return ite(d >= 0, d, -d)
 
 
 def _as_bool(v):
